@@ -2465,6 +2465,12 @@ fn gen_c02(r: &mut Rng, seed: u64) -> Scenario {
                     p.opts.crash = Some(cs);
                 }
                 push_tags(&mut tags, &["h:crash-regs"]);
+                if (rip < 0x1000 || rsp < 0x1000) && r.coin() && !sc.world.regions.iter().any(|g| g.start < 0x1000) {
+                    // page zero is mapped (vm.mmap_min_addr = 0): a jump through a null pointer lands in a mapping
+                    sc.world.regions.push(RegionSpec { start: 0, len: 0x1000, perms: "rwxp".into(), offset: 0, inode: 0, name: B(Vec::new()), deleted: false, content: Content::Pattern(r.next()) });
+                    sc.world.regions.sort_by_key(|g| g.start);
+                    push_tags(&mut tags, &["h:page-zero-mapped"]);
+                }
             }
             2 => {
                 let n = sc.world.threads.len() as u64;
